@@ -146,6 +146,45 @@ theorem warm_start_step_spec {π : Type} {sel : Selector π} (hsel : SelOK sel) 
   · exact Or.inl h
   · exact Or.inr ⟨h, by simpa [performStep] using hp, h2, h3⟩
 
+/-- Periodic reset of the warm start (`reset_preconditioner`): the zeroed copy only feeds the root. One step still keeps the
+stored value bit for bit, or stores the candidate of an accepted refresh — on reset steps too. -/
+theorem reset_step_spec {π : Type} {sel : Selector π} (hsel : SelOK sel) (thr : XF) (hthr : thr.isNaN = false)
+    (itv : Nat) (rf : Option Nat) (zero : π → π) (count : Nat) (root : WarmRoot π) (s : Slot π) :
+    (slotStepReset sel thr itv rf zero count root s).precond = s.precond
+      ∨ ((slotStepReset sel thr itv rf zero count root s).precond = (root count (warmStart rf zero count s.precond)).cand
+          ∧ count % itv = 0 ∧ (root count (warmStart rf zero count s.precond)).err.isNaN = false
+          ∧ (root count (warmStart rf zero count s.precond)).err.lt thr = true) := by
+  rcases slotStep_spec hsel hthr itv count s (root count (warmStart rf zero count s.precond)) with h | ⟨h, hp, h2, h3⟩
+  · exact Or.inl h
+  · exact Or.inr ⟨h, by simpa [performStep] using hp, h2, h3⟩
+
+/-- A reset step that is not a refresh step leaves the slot (stored value and stored error) untouched. -/
+theorem reset_nonrefresh_keeps_old {π : Type} {sel : Selector π} (hsel : SelOK sel) (thr : XF) (hthr : thr.isNaN = false)
+    (itv : Nat) (rf : Option Nat) (zero : π → π) (count : Nat) (root : WarmRoot π) (s : Slot π) (hn : count % itv ≠ 0) :
+    slotStepReset sel thr itv rf zero count root s = s := by
+  unfold slotStepReset
+  exact nonrefresh_keeps_old hsel thr hthr itv count s _ hn
+
+/-- Goodness (e.g. finiteness) is preserved for ever with a periodically reset warm start, provided the root turns the warm
+start it is given into a good candidate whenever its reported error passes the gate. -/
+theorem slots_finite_reset {π : Type} {sel : Selector π} (hsel : SelOK sel) (thr : XF) (hthr : thr.isNaN = false)
+    (itv : Nat) (rf : Option Nat) (zero : π → π) (count n : Nat) (root : WarmRoot π) (Good : π → Prop) (s0 : Slot π)
+    (h0 : Good s0.precond)
+    (hroot : ∀ c p, Good p → (root c (warmStart rf zero c p)).err.isNaN = false → (root c (warmStart rf zero c p)).err.lt thr = true
+      → Good (root c (warmStart rf zero c p)).cand) :
+    Good (slotRunReset sel thr itv rf zero root count s0 n).precond :=
+  slotRunReset_good hsel hthr itv rf zero root Good hroot n count s0 h0
+
+/-- Negative: applying the reset IN PLACE to the list that is also the old operand of the gate violates the specification —
+on a reset step whose root is rejected (NaN error) the slot becomes the zeroed value, neither the old value nor the candidate;
+and on a reset step that is not a refresh step as well. -/
+theorem reset_in_place_leaks :
+    (slotStepResetInPlace select (XF.fin (1/10)) 1 (some 4) (fun _ => (0 : Nat)) 4 (fun _ _ => ⟨5, XF.nan, 6⟩) ⟨7, XF.fin 0⟩).precond = 0
+      ∧ (slotStepResetInPlace select (XF.fin (1/10)) 3 (some 4) (fun _ => (0 : Nat)) 4 (fun _ _ => ⟨5, XF.fin 0, 6⟩) ⟨7, XF.fin 0⟩).precond = 0
+      ∧ (slotStepReset select (XF.fin (1/10)) 1 (some 4) (fun _ => (0 : Nat)) 4 (fun _ _ => ⟨5, XF.nan, 6⟩) ⟨7, XF.fin 0⟩).precond = 7
+      ∧ (slotStepReset select (XF.fin (1/10)) 3 (some 4) (fun _ => (0 : Nat)) 4 (fun _ _ => ⟨5, XF.fin 0, 6⟩) ⟨7, XF.fin 0⟩).precond = 7 := by
+  refine ⟨?_, ?_, ?_, ?_⟩ <;> decide +kernel
+
 /-- The whole optimizer state (all slots driven by the same counter, any number of slots): if all initial
 preconditioners are good and every candidate whose error passes the gate is good, every stored
 preconditioner is good after every fault history. -/
